@@ -12,7 +12,10 @@ from .codec import prng_bytes
 from . import oracle as o
 from . import runner as R
 
-LEN = {'x25519': 64, 'sc_reduce': 64, 'fe_mix': 64, 'x25519_base': 32, 'fe_inv': 32, 'ed_sign': 96, 'ge_dsm': 96}
+LEN = {'x25519': 64, 'sc_reduce': 64, 'fe_mix': 64, 'x25519_base': 32, 'fe_inv': 32, 'ed_sign': 96, 'ge_dsm': 96, 'poly1305': 130}
+# kinds whose model is cheap enough to recompute whole blocks (every call), not only the sampled ones
+CHEAP = {'sc_reduce', 'fe_mix', 'poly1305'}
+M128 = (1 << 128) - 1
 P, L = o.P, o.L
 M255 = (1 << 255) - 1
 
@@ -62,6 +65,9 @@ def spec(kind, inp):
         return pk + sig + b'\x01'
     if kind == 'sc_reduce':
         return (int.from_bytes(inp[:64], 'little') % L).to_bytes(32, 'little')
+    if kind == 'poly1305':
+        mlen = inp[32] % 97
+        return o.poly1305(inp[:32], inp[34:34 + mlen])
     if kind == 'fe_mix':
         x, y = _fe(inp[:32]), _fe(inp[32:64])
         t = (x * y + x * x - y) % P
@@ -78,6 +84,22 @@ def spec(kind, inp):
         A = o.ext_mul(ka, o.ext(o.B))
         return o.ed_encode(o.ext_aff(o.ext_add(o.ext_mul(a, A), o.ext_mul(b, o.ext(o.B)))))
     raise KeyError(kind)
+
+
+def block_hash(outputs):
+    """mirror of the driver's block hash"""
+    h = 0
+    for pos, ob in enumerate(outputs):
+        for j in range(0, len(ob), 16):
+            c = int.from_bytes(ob[j:j + 16], 'little')
+            h = (h + c * (2 * (pos * 16 + j // 16) + 1)) & M128
+    return 'h%032x' % h
+
+
+def _model_block_job(job):
+    kind, seed, start, n, want = job
+    got = block_hash([spec(kind, bulk_input(seed, i, LEN[kind])) for i in range(start, start + n)])
+    return None if got == want else (kind, seed, start, n)
 
 
 def line(kind, seed, start, count, block):
@@ -115,7 +137,7 @@ def _check_sample_job(job):
     return None if exp == hx else (kind, seed, i, exp, hx)
 
 
-def run_differential(rep, sig_prefix, plan, bins, wd, tag, judge='both', sample_cap=4000):
+def run_differential(rep, sig_prefix, plan, bins, wd, tag, judge='both', sample_cap=4000, model_calls=1 << 20):
     """plan: [(kind, seed, start, count, block)].  bins: {'rel': path, 'f32': path}.
     judge = 'both': any disagreement or spec mismatch is reported (C17);
     judge = 'rel' : only what the specification model confirms wrong in the default build is reported (C12/C13/C15).
@@ -138,9 +160,12 @@ def run_differential(rep, sig_prefix, plan, bins, wd, tag, judge='both', sample_
         if crashes:
             raise R.Inconclusive('bulk driver (%s) crashed: %r' % (cfg, crashes[:1]))
         res[cfg] = r
-    cov = {'calls_per_backend': 0, 'blocks_compared': 0, 'blocks_differing': 0, 'samples_checked_against_spec': 0, 'kinds': {}}
+    cov = {'calls_per_backend': 0, 'blocks_compared': 0, 'blocks_differing': 0, 'samples_checked_against_spec': 0, 'kinds': {},
+           'calls_recomputed_by_the_model_in_full': 0}
     jobs = []
     narrow = []
+    mjobs = []
+    budget = {k: model_calls for k in CHEAP}
     for idx, (kind, seed, start, n, block) in enumerate(lines):
         a = res['rel'].get(idx)
         b = res['f32'].get(idx) if 'f32' in res else None
@@ -160,6 +185,12 @@ def run_differential(rep, sig_prefix, plan, bins, wd, tag, judge='both', sample_
                     narrow.append((kind, seed, start + k * block, min(block, n - k * block)))
         for i, hx in sa.items():
             jobs.append((kind, seed, i, hx))
+        if kind in CHEAP:
+            for k, hv in enumerate(ha):
+                nb = min(block, n - k * block)
+                if budget[kind] >= nb:
+                    budget[kind] -= nb
+                    mjobs.append((kind, seed, start + k * block, nb, hv))
     # spec check of the sampled raw outputs (of the default build; the other backend is tied to it by the block hashes)
     if len(jobs) > sample_cap:
         step = len(jobs) / float(sample_cap)
@@ -167,7 +198,13 @@ def run_differential(rep, sig_prefix, plan, bins, wd, tag, judge='both', sample_
     ctx = mp.get_context('fork')
     with ctx.Pool(R.NPROC) as pool:
         outs = pool.map(_check_sample_job, jobs, chunksize=8)
+        mouts = pool.map(_model_block_job, mjobs, chunksize=1) if mjobs else []
     cov['samples_checked_against_spec'] = len(jobs)
+    cov['calls_recomputed_by_the_model_in_full'] = sum(j[3] for j in mjobs)
+    for bad in mouts:
+        if bad:
+            cov['blocks_differing'] += 1
+            narrow.append(bad)
     for bad in outs:
         if bad:
             kind, seed, i, exp, hx = bad
@@ -181,24 +218,25 @@ def run_differential(rep, sig_prefix, plan, bins, wd, tag, judge='both', sample_
         nres = {cfg: R.run_driver(b, nfile, len(nl), 'bulkn-' + cfg, nshards=min(R.NPROC, len(nl)))[0] for cfg, b in bins.items()}
         for idx, (k, s, st, n) in enumerate(narrow[:8]):
             ra, _ = parse(nres['rel'].get(idx))
-            rb, _ = parse(nres['f32'].get(idx))
+            rb = parse(nres['f32'].get(idx))[0] if 'f32' in nres else {}
             found = 0
             for i in sorted(ra):
-                if ra[i] != rb.get(i):
+                if ('f32' in nres and ra[i] != rb.get(i)) or k in CHEAP:
                     exp = spec(k, bulk_input(s, i, LEN[k])).hex()
-                    wrong = [c for c, v in (('rel', ra[i]), ('f32', rb.get(i))) if v != exp]
+                    wrong = [c for c, v in (('rel', ra[i]),) + ((('f32', rb.get(i)),) if 'f32' in nres else ()) if v != exp]
+                    if not wrong:
+                        continue
                     found += 1
                     inp = bulk_input(s, i, LEN[k]).hex()
+                    msg = 'call %d (input %s): spec %s.. default build %s.. 32-bit backend %s..' % (i, inp, exp[:40], ra[i][:40], (rb.get(i) or 'n/a')[:40])
                     if 'rel' in wrong:
-                        rep.violations.append(('bulk-diff', -1, '%s:bulk:%s:default-build-differs-from-spec' % (sig_prefix, k),
-                                               'call %d (input %s): spec %s.. default build %s.. 32-bit backend %s..' % (i, inp, exp[:40], ra[i][:40], (rb.get(i) or '')[:40]), line(k, s, i, 1, 1), None))
+                        rep.violations.append(('bulk-diff', -1, '%s:bulk:%s:default-build-differs-from-spec' % (sig_prefix, k), msg, line(k, s, i, 1, 1), None))
                     if 'f32' in wrong and judge == 'both':
-                        rep.violations.append(('bulk-diff', -1, '%s:bulk:%s:32-bit-backend-differs-from-spec' % (sig_prefix, k),
-                                               'call %d (input %s): spec %s.. default build %s.. 32-bit backend %s..' % (i, inp, exp[:40], ra[i][:40], (rb.get(i) or '')[:40]), line(k, s, i, 1, 1), None))
+                        rep.violations.append(('bulk-diff', -1, '%s:bulk:%s:32-bit-backend-differs-from-spec' % (sig_prefix, k), msg, line(k, s, i, 1, 1), None))
                     if found >= 3:
                         break
             if not found and judge == 'both':
-                rep.violations.append(('bulk-diff', -1, '%s:bulk:%s:block-hash-differs' % (sig_prefix, k), 'block at call %d differs between the backends but no single call does (non-deterministic?)' % st, line(k, s, st, n, n), None))
+                rep.violations.append(('bulk-diff', -1, '%s:bulk:%s:block-hash-differs' % (sig_prefix, k), 'block at call %d differs (between the backends or from the model) but no single call does' % st, line(k, s, st, n, n), None))
     return cov
 
 
@@ -220,9 +258,14 @@ def for_property(rep, mod, tier, seed, wd, replay_lines=None, judge='rel'):
     if not plan:
         return None
     bins = {'rel': R.build('rel')}
-    f32, log = R.build('f32', allow_fail=True)
-    if f32 is not None:
-        bins['f32'] = f32
-    cov = run_differential(rep, mod.ID, plan, bins, wd, '%s-%d' % (tier, seed), judge=judge)
-    cov['second_implementation'] = 'force-32bits backend' if f32 is not None else 'not available (force-32bits build failed): samples checked against the specification model only'
+    f32 = None
+    if getattr(mod, 'BULK_SECOND_BACKEND', True):
+        f32, log = R.build('f32', allow_fail=True)
+        if f32 is not None:
+            bins['f32'] = f32
+    cov = run_differential(rep, mod.ID, plan, bins, wd, '%s-%d' % (tier, seed), judge=judge, model_calls=(1 << 23) if tier == 'thorough' else (1 << 20))
+    if not getattr(mod, 'BULK_SECOND_BACKEND', True):
+        cov['second_implementation'] = 'none needed: every call of every block is recomputed by the Python model'
+    else:
+        cov['second_implementation'] = 'force-32bits backend' if f32 is not None else 'not available (force-32bits build failed): samples checked against the specification model only'
     return cov
